@@ -64,3 +64,6 @@ func Sha256(pre [32]byte) [32]byte { panic("vh stub") }
 // GenuineID returns the ID of an element created by an earlier block (an
 // ideal-hash output that no hash derived in the current step can equal).
 func GenuineID(name string) [32]byte { panic("vh stub") }
+
+// PanicMsg runs f and returns the panic message ("" if it did not panic).
+func PanicMsg(f func()) string { panic("vh stub") }
